@@ -28,12 +28,12 @@ TIERS = {
     "quick": {"worlds": 130, "wall": 170, "cap": 20, "limit": 120.0, "max_points": 44},
     "thorough": {"worlds": 2000, "wall": 1700, "cap": 60, "limit": 300.0, "max_points": 160},
 }
-GATES = ("fired.eval.obj", "fired.eval.grad", "fired.eval.cons", "fired.eval.jac", "fired.eval.hess", "fired.lin.factor", "fired.lin.solve", "trials.discarded", "fired.region", "fired.x0")
+GATES = ("fired.eval.obj", "fired.eval.grad", "fired.eval.cons", "fired.eval.jac", "fired.eval.hess", "fired.lin.factor", "fired.lin.solve", "trials.discarded", "fired.region", "fired.x0", "fired.lin.obs_solve", "worlds.display_rows")
 COMPS = ("obj", "grad", "cons", "jac", "hess")
 
 
 def generate(rng, seed, index, tier):
-    fam = str(rng.choice(["qp", "nlp", "degenerate", "domain", "saddle"], p=[0.35, 0.35, 0.1, 0.1, 0.1]))
+    fam = str(rng.choice(["qp", "nlp", "degenerate", "domain", "saddle", "expo"], p=[0.3, 0.3, 0.1, 0.1, 0.1, 0.1]))
     spec, x0, y0 = gen.gen_problem(rng, fam)
     kw = gen.gen_params(rng, spec, x0, y0, p_knob=0.55, reporting=False, globalized=False)
     if rng.random() < 0.15:
@@ -41,7 +41,14 @@ def generate(rng, seed, index, tier):
     cap = TIERS[tier]["cap"]
     kw["iteration_limit"] = int(rng.integers(4, cap + 1))
     kw = gen.quiet_params(kw)
-    mode = str(rng.choice(["enum", "swarm", "region", "x0"], p=[0.55, 0.2, 0.15, 0.1]))
+    if rng.random() < 0.25:
+        # every row displayed: the display evaluates quantities at trial points too
+        kw["display_interval"] = 0.0
+    if rng.random() < 0.2:
+        kw["report_rcond"] = True
+    if fam == "expo" and rng.random() < 0.5:
+        kw["lamb_init"] = float(rng.choice([1e-3, 1e-2]))
+    mode = str(rng.choice(["enum", "swarm", "region", "x0"], p=[0.5, 0.2, 0.2, 0.1]))
     return gen.base_world(
         seed, ID, index, spec, x0, y0, kw,
         case={"mode": mode, "max_points": TIERS[tier]["max_points"], "pts_seed": int(rng.integers(0, 2**31))},
@@ -63,6 +70,11 @@ def _fault_sets(world, R, rng):
             allp.append({"dev": "lin", "op": "factor", "at": k})
         for k in range(1, ns + 1):
             allp.append({"dev": "lin", "op": "solve", "at": k})
+        nobs = R.lin_counts[2]
+        for k in range(1, min(nobs, 40) + 1):
+            # the condition estimator's own solves (report_rcond): their failure is absorbed
+            # ("no estimate"), it must never escape
+            allp.append({"dev": "lin", "op": "obs_solve", "at": k})
         full = len(allp) <= maxn
         if not full:
             # keep every device represented, sample the rest
@@ -133,7 +145,10 @@ def _oracle(world, R, F, fset, sub, stats):
 
     fired_eval = F.problem.fired
     fired_lin = [f for f in F.lin_fired if f[0] != "obs_solve"]
-    if not fired_eval and not fired_lin:
+    fired_obs = [f for f in F.lin_fired if f[0] == "obs_solve"]
+    if fired_obs:
+        bump("fired.lin.obs_solve", len(fired_obs))
+    if not fired_eval and not fired_lin and not fired_obs:
         bump("configured_not_fired")
         return out, False
     for (idx, comp, k, arg, site) in fired_eval:
@@ -261,6 +276,11 @@ def case(world):
     R = execute(base)
     seam_violations(R, ID)
     execs = 1
+    if world["params"].get("display_interval", 0.1) == 0.0:
+        stats["worlds.display_rows"] = 1
+    nat = sum(1 for t in R.trials if (not t.accepted) and t.out is t.inp)
+    if nat:
+        stats["reference.natural_failed_trials"] = nat
     oc = R.outcome
     stats["ref." + oc.split("@")[0]] = 1
     if not (oc.startswith("status:") or oc == "deliberate:Inverse step size") or not R.trials:
